@@ -39,6 +39,7 @@ type addr struct {
 	TW      tw
 	Rest    string // what follows the thin waist, e.g. "/quic-v1/webtransport"
 	Circuit bool   // followed by /p2p/<relay>/p2p-circuit
+	Zone    string // "/ip6zone/<Zone>" in front (IPv6 only): another spelling of the same address
 }
 
 func (a addr) String() string {
@@ -56,6 +57,9 @@ func (a addr) String() string {
 		return "/p2p-circuit"
 	}
 	s := a.TW.String() + a.Rest
+	if a.Zone != "" && a.TW.IP.Is6() {
+		s = "/ip6zone/" + a.Zone + s
+	}
 	if a.Circuit {
 		s += "/p2p/" + relayPeer + "/p2p-circuit"
 	}
